@@ -17,9 +17,15 @@
    say nothing about any other goroutine of either endpoint (stalled handlers, running closures,
    calls in any state).  A chain that alternates direction is a sequence of such hops, each made
    from inside a handler that is, for this theorem, just another stalled goroutine.
-   NOT proved (part (b)): the induction over the depth of a chain with application handlers that
-   themselves issue the next call as part of the model (handlers are opaque here); decided by the
-   nesting workloads of the check. *)
+   The three moves of a chain are theorems of the closed system: down ([chain_descends]: the request
+   reaches the peer and its handler enters application code, the caller's state untouched), across
+   ([hop_completes_whatever_else_is_stalled]: the innermost call completes) and back up
+   ([stalled_handler_resumes_and_answers]: a handler that resumes answers its caller within seven
+   steps); each needs only the goroutines and frames of its own call; a chain of depth 2 in both
+   directions at once is exhibited in Props/C01.v ([both_directions_nested], Duo.v).
+   NOT proved (part (b)): the induction that strings these moves together for every depth, with
+   application handlers that issue the next call as part of the model (handlers are opaque here:
+   "the handler resumes" is a step the schedule chooses); decided by the nesting workloads. *)
 From Verif Require Import Base Link LinkProofs LinkInvB LinkInvK Pair PairProofs PairProgress.
 
 Theorem request_loop_never_waits_for_handlers :
@@ -130,3 +136,36 @@ Theorem hop_premises_are_met :
     tget (threads (pb p)) (THandler 0) = Some (HGate 10%N) /\ tget (threads (pa p)) (THandler 0) = Some (HGate 5%N).
 Proof. exact hop_premises_example. Qed.
 Print Assumptions hop_premises_are_met.
+
+(* the way down a chain: the request of call i reaches the peer and its handler enters application
+   code (from where it may call back) by three steps, none of them of the calling endpoint, whose
+   state is untouched *)
+Theorem chain_descends :
+  forall (fn : nat -> fnkind) callsA callsB l0 p i arg,
+    prun fn callsA callsB pinit l0 = Some p ->
+    req_written (evs (pa p)) i = Some arg -> fn i = FGated ->
+    tget (threads (pb p)) TReqLoop = Some QLReading -> memN 0%N (cancelled (pb p)) = false -> no_callee_faults (pb p) ->
+    exists p',
+      prun fn callsA callsB p [NReq i; PB (Run (TReq (nreq (pb p)))) 0; PB (Run (THandler (nreq (pb p)))) 0] = Some p' /\
+      pa p' = pa p /\ nth_error (dreq p') (nreq (pb p)) = Some i /\
+      tget (threads (pb p')) (THandler (nreq (pb p))) = Some (HGate arg) /\
+      memN 0%N (cancelled (pb p')) = false /\ no_callee_faults (pb p') /\ bclosed (pb p') = bclosed (pb p).
+Proof. exact descend_lemma. Qed.
+Print Assumptions chain_descends.
+
+(* the way back up: once the stalled handler of call i resumes, call i is completed by at most seven
+   steps of that handler, the network (its response frame) and call i's own goroutines - whatever every
+   other goroutine of either endpoint is doing *)
+Theorem stalled_handler_resumes_and_answers :
+  forall (fn : nat -> fnkind) callsA callsB l0 p i ent n arg,
+    prun fn callsA callsB pinit l0 = Some p ->
+    bclosed (pa p) = false -> tget (threads (pa p)) TResLoop = Some RLReading ->
+    memN 0%N (cancelled (pa p)) = false -> f_unmarshal (flt (pa p)) = None ->
+    tget (threads (pa p)) (TCall i) = Some CBlocked -> tget (threads (pa p)) (TWaiter i) = Some (WBlocked ent) ->
+    nth_error (dreq p) n = Some i -> tget (threads (pb p)) (THandler n) = Some (HGate arg) ->
+    memN 0%N (cancelled (pb p)) = false -> no_callee_faults (pb p) ->
+    exists l p' v er,
+      length l <= 7 /\ Forall (unwind_action p i n) l /\ prun fn callsA callsB p l = Some p' /\
+      tget (threads (pa p')) (TCall i) = Some (CReturned v er).
+Proof. exact unwind_completes_lemma. Qed.
+Print Assumptions stalled_handler_resumes_and_answers.
